@@ -715,6 +715,97 @@ def _rejects_outside_unit(test: ast.AST, var: str) -> bool:
     return False
 
 
+def _writes_arg(fi, param: str) -> List[str]:
+    """Statements of `fi` that store into the object bound to `param` (attribute / item stores, also through plain
+    aliases of sub-objects, update(), setattr)."""
+    roots = {param}
+    changed = True
+    while changed:
+        changed = False
+        for st in walk_function(fi.node):
+            if isinstance(st, ast.Assign) and len(st.targets) == 1 and isinstance(st.targets[0], ast.Name) and isinstance(st.value, (ast.Attribute, ast.Subscript, ast.Name)):
+                b = astq.attr_base(st.value) if not isinstance(st.value, ast.Name) else st.value.id
+                if b in roots and st.targets[0].id not in roots:
+                    roots.add(st.targets[0].id)
+                    changed = True
+    out = []
+    for st in walk_function(fi.node):
+        tg = st.targets if isinstance(st, ast.Assign) else ([st.target] if isinstance(st, (ast.AugAssign, ast.AnnAssign)) else [])
+        for t in tg:
+            if isinstance(t, (ast.Attribute, ast.Subscript)) and astq.attr_base(t) in roots:
+                out.append(short(st, 70))
+        if isinstance(st, ast.Call):
+            if isinstance(st.func, ast.Attribute) and st.func.attr in ("update", "pop", "setdefault", "merge_with") and astq.attr_base(st.func.value) in roots:
+                out.append(short(st, 70))
+            if norm(st.func) == "setattr" and st.args and (astq.attr_base(st.args[0]) if not isinstance(st.args[0], ast.Name) else st.args[0].id) in roots:
+                out.append(short(st, 70))
+    return out
+
+
+def check_lossless(prog: Program, res: Result) -> None:
+    """Normalisation (verify_training_cfg) returns the merge of the schema with the supplied configuration and nothing
+    else: neither it nor anything it hands the configuration to stores into the configuration (a value rewritten during
+    normalisation makes it lossy and non-idempotent on its inputs).  Builders look at EVERY entry of a dict argument:
+    `next(iter(d.items()))` / `list(d.items())[0]` inspects only the first one and silently drops the rest."""
+    R = "C20-lossless"
+    vf = prog.func("sleap_nn.config.training_job_config:verify_training_cfg")
+    res.touch(vf)
+    own = [w for p_ in vf.pos_params for w in _writes_arg(vf, p_)]
+    merged = [norm(s_.targets[0]) for s_ in walk_function(vf.node) if isinstance(s_, ast.Assign) and isinstance(s_.value, ast.Call) and norm(s_.value.func).endswith("OmegaConf.merge")
+              and isinstance(s_.targets[0], ast.Name)]
+    res.ob(R, len(merged) == 1, vf.qualname, "one merge of schema and supplied configuration", f"{len(merged)} OmegaConf.merge results", vf.where)
+    for m in merged:
+        own += _writes_arg(vf, m)
+    res.ob(R, not own, vf.qualname, "normalisation stores nothing into the configuration", f"verify_training_cfg rewrites configuration values: {own[:3]}", vf.where)
+    cfg_names = set(vf.pos_params) | set(merged)
+    for c in walk_function(vf.node):
+        if not isinstance(c, ast.Call):
+            continue
+        q = prog.resolve_call(vf, c)
+        callee = prog.functions.get(q) if q else None
+        if callee is None and isinstance(c.func, ast.Attribute) and isinstance(c.func.value, ast.Name):
+            ci = vf.module.classes.get(c.func.value.id)
+            callee = prog.lookup_method(ci, c.func.attr) if ci is not None else None
+        if callee is None:
+            continue
+        decos = [d_.id for d_ in callee.node.decorator_list if isinstance(d_, ast.Name)]
+        b = astq.bind_args(callee, c, skip_self=(callee.cls is not None and "staticmethod" not in decos))
+        for prm, a in b.items():
+            if isinstance(a, ast.Name) and a.id in cfg_names:
+                w = _writes_arg(callee, prm)
+                res.ob(R, not w, vf.qualname, f"{callee.name}() leaves the configuration untouched",
+                       f"verify_training_cfg passes the configuration to {callee.qualname}, which rewrites it (`{w[0] if w else ''}`): values supplied by the caller are "
+                       "changed by normalisation (not lossless, not idempotent on the input)", f"{vf.module.relpath}:{c.lineno}")
+    rets = [n for n in walk_function(vf.node) if isinstance(n, ast.Return) and n.value is not None]
+    res.ob(R, len(rets) == 1 and norm(rets[0].value) in merged, vf.qualname, "the merged configuration is what is returned",
+           f"verify_training_cfg returns `{short(rets[0].value, 50) if rets else '?'}`, not the merge result itself", vf.where)
+    # builders: every entry of a dict argument is considered
+    n_b = 0
+    for fi in prog.all_functions():
+        if fi.module.name != TRAIN or not fi.name.startswith("get_"):
+            continue
+        n_b += 1
+        for c in walk_function(fi.node):
+            first_only = None
+            if isinstance(c, ast.Call) and norm(c.func) == "next" and c.args and isinstance(c.args[0], ast.Call) and norm(c.args[0].func) == "iter" and c.args[0].args:
+                first_only = c.args[0].args[0]
+            elif isinstance(c, ast.Subscript) and astq.const_value(c.slice) == 0 and isinstance(c.value, ast.Call) and norm(c.value.func) in ("list", "tuple") and c.value.args:
+                first_only = c.value.args[0]
+            elif isinstance(c, ast.Call) and isinstance(c.func, ast.Attribute) and c.func.attr == "popitem":
+                first_only = c.func.value
+            if first_only is None:
+                continue
+            base = astq.peel(first_only, "items", "keys", "values")
+            nm = astq.attr_base(base) if not isinstance(base, ast.Name) else base.id
+            if nm in fi.pos_params:
+                res.touch(fi)
+                res.ob(R, False, fi.qualname, f"every entry of `{nm}` is considered",
+                       f"`{short(c, 60)}` looks only at the FIRST entry of the caller's `{nm}` dict: parameters supplied under another key (e.g. a YAML-style dict whose first "
+                       "key is None) are silently dropped", f"{fi.module.relpath}:{c.lineno}")
+    res.count(R, n_b)
+    res.floor(R, 8)
+
+
 def check(prog: Program, res: Result) -> None:
     sch = Schema(prog)
     res.extra["schema"] = sch.stats()
@@ -723,6 +814,7 @@ def check(prog: Program, res: Result) -> None:
     check_presets(prog, res, sch)
     check_comm(prog, res, sch)
     check_valid(prog, res, sch)
+    check_lossless(prog, res)
     res.assumptions += [
         "the documented place of each builder argument is the frozen table in sa/props/c20.py (same name unless listed)",
         "not decided: YAML save/load round trip and idempotence of verify_training_cfg (OmegaConf runtime semantics)",
